@@ -23,11 +23,12 @@ single out-of-range unit (`unicode_char` -> `PyUnicode_New(1, ch)`) but does
 -/
 namespace CffiVerif.Utf16
 
-/-- Exception *types* the modelled code can raise (`outOfBounds` is not a Python
-exception: it marks a read/write outside the modelled memory, i.e. undefined
-behaviour of the C code; the theorems show it does not happen). -/
+/-- Exception *types* the modelled code can raise.  Three are not Python exceptions:
+`outOfBounds` marks a read/write outside the modelled memory (undefined behaviour
+of the C code; the theorems show it does not happen), `fatal` is `Py_FatalError`
+(process abort), `unmodelled` marks a C construct the model gives no meaning to. -/
 inductive Err
-  | typeError | indexError | valueError | systemError | outOfBounds
+  | typeError | indexError | valueError | systemError | outOfBounds | fatal | unmodelled
   deriving DecidableEq, Repr
 
 def Err.name : Err → String
@@ -36,6 +37,8 @@ def Err.name : Err → String
   | .valueError => "ValueError"
   | .systemError => "SystemError"
   | .outOfBounds => "OutOfBounds"
+  | .fatal => "Fatal"
+  | .unmodelled => "Unmodelled"
 
 /-- (so that `decide` can evaluate closed model terms) -/
 instance {ε α : Type} [DecidableEq ε] [DecidableEq α] : DecidableEq (Except ε α)
